@@ -54,13 +54,36 @@ void initialize(econf_file *key_file, size_t num) {
 char *get_absolute_path(const char *path, econf_err *error) {
   char *absolute_path;
   if(*path != '/') {
+    /* Resolve the directory only. The file keeps its own name even if it
+       is a symbolic link (e.g. a drop-in which is linked to /dev/null).
+       Otherwise it would not be found by its name any more. */
     char buffer[PATH_MAX];
-    if(!realpath(path, buffer)) {
+    const char *name = strrchr(path, '/');
+    char *dir = name ? strndup(path, name - path) : strdup(".");
+    name = name ? name + 1 : path;
+    if (dir == NULL) {
+      if (error)
+	*error = ECONF_NOMEM;
+      return NULL;
+    }
+    if (*name == '\0' || strcmp(name, ".") == 0 || strcmp(name, "..") == 0) {
+      /* no file name at all */
+      free(dir);
+      dir = NULL;
+      name = "";
+    }
+    if(!realpath(dir ? dir : path, buffer)) {
+      free(dir);
       if (error)
 	*error = ECONF_NOFILE;
       return NULL;
     }
-    absolute_path = strdup(buffer);
+    free(dir);
+    if (*name == '\0')
+      absolute_path = strdup(buffer);
+    else if (asprintf(&absolute_path, "%s/%s",
+		      strcmp(buffer, "/") == 0 ? "" : buffer, name) < 0)
+      absolute_path = NULL;
   } else {
     absolute_path = strdup(path);
   }
